@@ -31,6 +31,11 @@ pub struct Sut {
     // codec-level stream state (suite `codec`)
     pub codec: MemcacheBinaryCodec,
     pub cbuf: BytesMut,
+    // socket-level state (suite `conn`): a real server over the same store, and the current connection
+    pub server: Option<crate::net::Server>,
+    pub conn: Option<crate::net::Conn>,
+    pub store_dyn: Arc<dyn Cache + Send + Sync>,
+    pub acc: Vec<u8>,
 }
 
 pub fn quiet_panics() {
@@ -48,6 +53,7 @@ impl Sut {
             }
             None => (inner.clone(), None),
         };
+        let store_dyn = store.clone();
         let memc = Arc::new(MemcStore::new(store));
         Sut {
             clock,
@@ -58,7 +64,60 @@ impl Sut {
             limit,
             codec: MemcacheBinaryCodec::new(limit),
             cbuf: BytesMut::with_capacity(4096),
+            server: None,
+            conn: None,
+            store_dyn,
+            acc: vec![],
         }
+    }
+
+    /// `conn`: open a fresh connection to a real server running over this store
+    pub fn open_conn(&mut self) {
+        if self.server.is_none() {
+            self.server = Some(crate::net::start_server(self.store_dyn.clone(), self.limit, 64, 30));
+        }
+        self.conn = Some(crate::net::Conn::open(self.server.as_ref().unwrap().port));
+        self.acc.clear();
+    }
+
+    pub fn chunk(&mut self, bytes: &[u8]) -> String {
+        if self.conn.is_none() {
+            self.open_conn();
+        }
+        let c = self.conn.as_mut().unwrap();
+        if !c.closed {
+            c.send(bytes);
+            c.sync(&mut self.acc, std::time::Duration::from_secs(5));
+        }
+        "sent".to_string()
+    }
+
+    /// half-close and read everything until the server closes
+    pub fn eof(&mut self) -> String {
+        if self.conn.is_none() {
+            self.open_conn();
+        }
+        let c = self.conn.as_mut().unwrap();
+        if !c.closed {
+            c.half_close();
+            c.read_to_end(&mut self.acc, std::time::Duration::from_secs(8));
+        }
+        let out = std::mem::take(&mut self.acc);
+        format!("out {} {}", hexd(&out), if c.closed { "closed" } else { "open" })
+    }
+
+    /// no more input: collect what has been answered after the server went quiet
+    pub fn fin(&mut self) -> String {
+        if self.conn.is_none() {
+            self.open_conn();
+        }
+        let c = self.conn.as_mut().unwrap();
+        if !c.closed {
+            let more = c.drain(std::time::Duration::from_secs(5));
+            self.acc.extend(more);
+        }
+        let out = std::mem::take(&mut self.acc);
+        format!("out {} {}", hexd(&out), if c.closed { "closed" } else { "open" })
     }
 
     pub fn set_now(&self, t: u64) {
